@@ -49,6 +49,14 @@ theorem C08_send_section_uninterrupted (A B : List (Tid × Nat)) (t : Tid)
     (ha : accessOf client e.2 = some (2, w)) : e.1 = t :=
   section_uninterrupted client client_lockset 2 1 0 C08_wire_under_mutex A B t h1 h0 hno e he w ha
 
+/-- the hypotheses of `C08_send_section_uninterrupted` are met on the regenerated graph: the translator's witness
+schedule brings goroutine 0 to a use of the connection while it holds the send mutex exclusively and the session
+lock shared (re-derived from the source on every run, checked here by evaluation) -/
+theorem C08_section_reachable :
+    (run client init client_witness_sendSection).locks.exH 1 = some 0 ∧
+    (run client init client_witness_sendSection).locks.shH 0 = [0] ∧
+    (((run client init client_witness_sendSection).pc 0).bind (accessOf client)).map (·.1) = some 2 := by decide
+
 /-- every frame-writing call of `ws.connection` holds `writeLock` exclusively -/
 theorem C16_writes_under_writeLock : allUnder wsConn 5 5 5 = true := by decide
 
@@ -61,6 +69,11 @@ theorem C16_write_section_uninterrupted (A B : List (Tid × Nat)) (t : Tid)
     (e : Tid × Nat) (he : e ∈ log wsConn (run wsConn init A) B) (w : Bool)
     (ha : accessOf wsConn e.2 = some (5, w)) : e.1 = t :=
   section_uninterrupted1 wsConn wsConn_lockset 5 5 C16_writes_under_writeLock A B t h1 hno e he w ha
+
+/-- the hypothesis of `C16_write_section_uninterrupted` is met on the regenerated graph -/
+theorem C16_section_reachable :
+    (run wsConn init wsConn_witness_writeSection).locks.exH 5 = some 0 ∧
+    (((run wsConn init wsConn_witness_writeSection).pc 0).bind (accessOf wsConn)).map (·.1) = some 5 := by decide
 
 /-- **C17 (race freedom)** for `WSClient`: `session` and `err` -/
 theorem C17_race_free (sched : List (Tid × Nat)) (t1 t2 : Tid) (hne : t1 ≠ t2) (pc1 pc2 : Nat) (v : Var) (w2 : Bool)
